@@ -238,7 +238,7 @@ PROPS = {
         assumptions=["64-bit usize/isize"]),
     "C03": dict(
         module="Flussab.Props.C03Cnf", modules=["Flussab.Props.C03Aiger", "Flussab.Props.C03Cnf", "Flussab.Props.C03Btor2"],
-        engines=[("aiger", 3000, 120000, "rt+layout"), ("cnf", 3000, 120000, "rt+layout"), ("btor2", 3000, 120000, "rt+rtbad+layout+kinds+valid")],
+        engines=[("aiger", 3000, 120000, "rt+layout"), ("cnf", 3000, 120000, "rt+layout"), ("btor2", 3000, 120000, "rt+rtbad+layout+kinds+valid"), ("btor2", 0, 0, "validx")],
         claim="Theorems over the parser and writer models: cnf_roundtrip (CNF/WCNF/GCNF, every literal type, both "
               "ignore_header settings: parse(write(h, cs)) = (h, cs, clean end) for every value in the explicit "
               "decidable domain WF), cnf_parsed_is_wf + cnf_parse_write_parse (whatever is accepted is in WF, hence "
@@ -256,7 +256,7 @@ PROPS = {
         assumptions=["document shorter than 2^64 - 1 bytes"]),
     "C04": dict(
         module="Flussab.Props.C04", modules=["Flussab.Props.C04", "Flussab.Props.C04Btor2"],
-        engines=[("aiger", 2000, 60000, "fault"), ("aiger", 10, 400, "sweep"), ("cnf", 3000, 100000, "fault+logfault"), ("cnf", 25, 1500, "sweep"), ("btor2", 2000, 60000, "fault"), ("btor2", 15, 600, "sweep")],
+        engines=[("aiger", 2000, 60000, "fault"), ("aiger", 2, 300, "sweep"), ("cnf", 3000, 100000, "fault+logfault"), ("cnf", 25, 1500, "sweep"), ("btor2", 2000, 60000, "fault"), ("btor2", 15, 600, "sweep")],
         claim="Theorems for every byte string and every fault offset (the view delivers b then fails): "
               "cnf_fault_never_clean_end / log_fault_never_ok / btor2_fault_final (a failing source is never reported "
               "as completely parsed), cnf_fault_syntax_only_before_end / btor2_fault_syntax_before_end (a syntax error "
